@@ -2,7 +2,8 @@
    with two arithmetic instances: native binary64 with [rnd] = round-to-binary32 (the C++ computes everything in
    double and stores the accumulated coefficients into float), and exact rationals (Qc, extracted) for the
    transfer matrix that the exact convolution oracle is compared with. One output line per V/U line.
-   argv: cases [shipped|fixed] — which factorial the model uses (default: fixed, the current tree). *)
+   argv: cases [shipped|signflip|fixed] — which historical variant of the code the model follows: as shipped
+   (factorial(0) = 0 and the (-1)^k factor), after the factorial fix only, or the current tree (default). *)
 open Convmodel
 
 let rec pos_of_int n = if n = 1 then XH else if n land 1 = 0 then XO (pos_of_int (n lsr 1)) else XI (pos_of_int (n lsr 1))
@@ -75,7 +76,8 @@ let join f l = String.concat "," (List.map f l)
 
 let () =
   let ic = open_in Sys.argv.(1) in
-  let shipped = Array.length Sys.argv > 2 && Sys.argv.(2) = "shipped" in
+  let variant = if Array.length Sys.argv > 2 then Sys.argv.(2) else "fixed" in
+  let shipped = variant = "shipped" and flip = (variant = "shipped" || variant = "signflip") in
   let pend_dims = ref [] and coefs = ref [||] and ext = ref [||] in
   (try while true do
     let line = input_line ic in
@@ -95,7 +97,7 @@ let () =
         let ds = Array.of_list (List.rev !pend_dims) in
         let rt = { orders = Array.map fst ds; knots = Array.map snd ds; coefs = !coefs; ext = !ext } in
         let t = mk_ctable Obj.repr rt in
-        let conv = if shipped then convolve_shipped else convolve in
+        let conv = if shipped then convolve_shipped else if flip then convolve_signflip else convolve in
         let t' = conv f32 (isort f32) t (nat_of_int dim) (List.map Obj.repr kk) in
         let b = Buffer.create 4096 in
         let asd (v : Obj.t) = hex_of_dbl (Obj.obj v : float) and asf (v : Obj.t) = hex_of_flt (Obj.obj v : float) in
@@ -109,16 +111,24 @@ let () =
           Buffer.add_string b (Printf.sprintf " ext.%d=%s,%s" i (asd (fst d.c_ext)) (asd (snd d.c_ext)));
           Buffer.add_string b (Printf.sprintf " knots.%d=%s" i (join asd d.c_knots))) t'.c_dims;
         Buffer.add_string b (Printf.sprintf " ncoef=%d coef=%s" (List.length t'.c_coef) (join asf t'.c_coef));
-        if List.mem "x" flags then begin
-          (* exact transfer matrix of the same Gallina term at Qc *)
+        let rows = List.fold_left (fun acc f ->
+            if String.length f > 1 && f.[0] = 'r' then
+              (match String.split_on_char ':' (String.sub f 1 (String.length f - 1)) with
+               | [lo; hi] -> Some (int_of_string lo, int_of_string hi) | _ -> acc)
+            else acc) None flags in
+        if List.mem "x" flags || rows <> None then begin
+          (* exact transfer matrix (or the rows lo..hi-1 of it) of the same Gallina term at Qc *)
           let d = List.nth (mk_ctable qc_of_float rt).c_dims dim in
           let kq = List.map qc_of_float kk in
           let rho = isort qcA (pairwise_sums qcA d.c_knots kq) in
           let k = rt.orders.(dim) + 1 and q = n - 1 in
           let na_old = Array.length rt.knots.(dim) - rt.orders.(dim) - 1 in
           let na_new = Array.length rt.knots.(dim) * n - (rt.orders.(dim) + n - 1) - 1 in
-          let nrm = norm_with qcA (if shipped then factorial_shipped else factorial) (nat_of_int k) (nat_of_int q) in
-          let tr = trafo_matrix qcA nrm d.c_knots kq rho (nat_of_int k) (nat_of_int q) (nat_of_int na_new) (nat_of_int na_old) in
+          let nrm = norm_with qcA (if shipped then factorial_shipped else factorial) flip (nat_of_int k) (nat_of_int q) in
+          let (lo, hi) = match rows with Some (lo, hi) -> (max 0 lo, min na_new hi) | None -> (0, na_new) in
+          let tr = List.init (max 0 (hi - lo)) (fun r ->
+            List.init na_old (fun j -> trafo_entry qcA nrm d.c_knots kq rho (nat_of_int k) (nat_of_int q) (nat_of_int (lo + r)) (nat_of_int j))) in
+          Buffer.add_string b (Printf.sprintf " qrows=%d:%d" lo hi);
           Buffer.add_string b (" qtrafo=" ^ String.concat ";" (List.map (join str_of_qc) tr))
         end;
         print_endline (Buffer.contents b)
